@@ -31,5 +31,15 @@ out = open(os.path.join(ROOT, 'tools', 'design_head.md')).read() + checks + open
 tail2 = os.path.join(ROOT, 'tools', 'design_tail2.md')
 if os.path.exists(tail2):
     out += open(tail2).read()
+thor = os.path.join(ROOT, 'tools', 'thorough_runs.md')
+if os.path.exists(thor):
+    out += ('\n---------------------------------------------------------------------------------------\n\n'
+            '## 9. End-to-end runs of the thorough commands\n\n'
+            'Every `./run <Cxx> thorough` was started once end to end in the last session (16 cores shared with the quick sweeps, the seed matrix '
+            'and sub-agents, so wall times are upper bounds and a few goals that are decided in seconds on an idle machine came back `unknown`). '
+            'A first run that was inconclusive (exit 2: a timeout, a capped exploration or an `unknown` goal -- never reported as success) led to '
+            'the resizing stated in the BOUNDS of the check (§3) and to a second run (run 2). One first run exposed a false alarm of the check '
+            'itself (C07, §6). Runs that did not finish before the end of the session are listed as such; the quick tiers are the ones exercised '
+            'by `vp check` on a fresh copy (seven requests; the last three, which cover all 38 checks, came back without remarks).\n\n' + open(thor).read())
 open(os.path.join(ROOT, 'DESIGN.md'), 'w').write(out)
 print(len(out), 'bytes;', len(rows), 'seeded changes')
